@@ -33,6 +33,10 @@ type RTPSink struct {
 	HoldSleep  time.Duration
 	tampered   []string
 	inFlight   atomic.Int32
+	// StampExtension > 0: after taking its copy the sink sets a header extension with this id on the header it was handed, as the
+	// library's own transport-cc header-extension writer does with every header that passes through it (errors ignored).
+	StampExtension uint8
+	stamps         atomic.Uint32
 }
 
 // InFlight returns the number of Write calls that have started but not yet returned.
@@ -65,6 +69,11 @@ func (s *RTPSink) Write(h *rtp.Header, p []byte, a interceptor.Attributes) (int,
 	s.mu.Unlock()
 	if s.OnCall != nil {
 		s.OnCall(rec)
+	}
+	if s.StampExtension > 0 {
+		n := s.stamps.Add(1)
+		_ = h.SetExtension(s.StampExtension, []byte{byte(n >> 8), byte(n)})
+		rec.Header = h.Clone() // the comparison below is about changes made by others while the sink holds the packet
 	}
 	if s.HoldYields > 0 || s.HoldSleep > 0 {
 		for i := 0; i < s.HoldYields; i++ {
